@@ -524,6 +524,56 @@ def run_shard(desc, tier):
         for unit in ("é", ";", "a", '"', "\\", " x"):
             for n in (255, 1023, 1024, 1025, 4095, 5000):
                 roundtrip(r, "big", unit * n, "long")
+        # Cookie headers of many pairs (around every power of two up to 4096 pairs, and the round numbers in between): each one read back
+        for n in sorted({2 ** k + d for k in range(4, 13) for d in (-1, 0, 1)} | {50, 100, 150, 180, 181, 182, 183, 200, 300, 500, 1000, 3000}):
+            pairs = [(f"k{i}", f"v{i}" if i % 5 else f'"q {i}\\073"') for i in range(n)]
+            want = {k: (v if not v.startswith('"') else f"q {i};") for i, (k, v) in enumerate(pairs)}
+            for sep in ("; ", ";"):
+                header = sep.join(f"{k}={v}" for k, v in pairs)
+                for iface in ("wsgi", "asgi"):
+                    r.count("evaluations")
+                    r.count("distinct_nontrivial")
+                    w = {"kind": "manypairs", "iface": iface, "n": n, "sep": sep}
+                    try:
+                        got = dict(read_cookies(iface, header))
+                    except Exception as e:  # noqa
+                        r.violation(f"manypairs:exception:{type(e).__name__}", w, f"{iface} request.cookies on a Cookie header of {n} pairs raised {e!r:.100}")
+                        continue
+                    if got != want:
+                        bad = sorted(k for k in want if got.get(k) != want[k])[:3] + sorted(k for k in got if k not in want)[:2]
+                        r.violation("manypairs:value-changed", w, f"{iface} request.cookies on a Cookie header of {n} pairs (separator {sep!r}): {len(got)} cookies read, differing at {bad}: {[got.get(k) for k in bad]!r:.200}")
+        # the status of the response the cookie rides on does not matter: one Set-Cookie line, read back, for every status and class
+        for status in (200, 201, 202, 204, 205, 206, 300, 301, 302, 303, 304, 307, 308, 400, 401, 403, 404, 405, 410, 418, 422, 429, 500, 502, 503, 599):
+            for iface in ("wsgi", "asgi"):
+                mod = __import__("baize.wsgi" if iface == "wsgi" else "baize.asgi", fromlist=["Response"])
+                makers = {"Response": lambda: mod.Response(status), "PlainText": lambda: mod.PlainTextResponse("", status) if status not in (204, 205, 304) else mod.PlainTextResponse(b"", status),
+                          "JSON": lambda: mod.JSONResponse({}, status), "Redirect": lambda: mod.RedirectResponse("/next", status)}
+                for cname, mk in makers.items():
+                    for action in ("set", "delete"):
+                        r.count("evaluations")
+                        r.count("distinct_nontrivial")
+                        w = {"kind": "status", "iface": iface, "status": status, "cls": cname, "action": action}
+                        try:
+                            resp = mk()
+                            if action == "set":
+                                resp.set_cookie("sid", "a b;c")
+                            else:
+                                resp.delete_cookie("sid")
+                            req = SV.AReq()
+                            res = SV.run_wsgi(resp, SV.to_environ(req)) if iface == "wsgi" else SV.run_asgi(resp, SV.to_scope(req), SV.to_messages(req))
+                            if res.exc is not None:
+                                raise res.exc
+                        except Exception as e:  # noqa
+                            r.violation(f"status:exception:{type(e).__name__}", w, f"{iface} {cname}({status}) with {action}_cookie raised {e!r:.100}")
+                            continue
+                        lines = [v for k, v in res.headers if k.lower() == "set-cookie"]
+                        ok = len(lines) == 1 and res.status == status
+                        if ok and action == "set":
+                            ok = read_cookies(iface, lines[0].split("; ")[0]).get("sid") == "a b;c"
+                        if ok and action == "delete":
+                            ok = "max-age=0" in lines[0].lower() and lines[0].startswith("sid=")
+                        if not ok:
+                            r.violation(f"status:{action}", w, f"{iface} {cname}({status}) with {action}_cookie('sid'): status {res.status}, Set-Cookie lines {lines!r:.200}")
         r.sample({"name": "big", "value": "'é' * 1025"})
     elif desc[0] == "reuse":
         reuse_sequences(r)
@@ -541,7 +591,10 @@ def finish(merged, tier):
 
 def replay(w):
     r = R()
-    if w["kind"] == "roundtrip":
+    if w["kind"] in ("manypairs", "status"):
+        rr = run_shard(("long",), "quick")
+        r.viol = {s: v for s, v in rr.viol.items() if v[1].get("kind") == w["kind"] and v[1].get("iface") == w["iface"] and v[1].get("n") == w.get("n") and v[1].get("status") == w.get("status")}
+    elif w["kind"] == "roundtrip":
         roundtrip(r, w["name"], w["value"], "replay", full=w.get("full", False))
     elif w["kind"] == "coldstart":
         from ..core import fresh
